@@ -165,10 +165,12 @@ def _callee_ok(fi):
     if isinstance(fn, ast.AsyncFunctionDef):
         return False
     decos = set(fi.decorators)
-    if decos - {'staticmethod'}:
+    if decos - {'staticmethod', 'classmethod'}:
         return False
     a = fn.args
-    if a.vararg or a.kwarg or a.posonlyargs:
+    if a.vararg or a.posonlyargs:
+        return False
+    if a.kwarg and not _kwarg_only_spread(fn):
         return False
     for n in ast.walk(fn):
         if isinstance(n, (ast.Yield, ast.YieldFrom, ast.Global, ast.Nonlocal, ast.Await)):
@@ -177,6 +179,38 @@ def _callee_ok(fi):
                 and n.func.id == 'super':
             return False
     return True
+
+
+def _kwarg_only_spread(fn):
+    """The `**kw` parameter of fn is used only as a `**kw` spread in calls (so the caller's extra keywords can be written in)."""
+    kw = fn.args.kwarg.arg
+    spreads = set()
+    for n in ast.walk(fn):
+        if isinstance(n, ast.Call):
+            for k in n.keywords:
+                if k.arg is None and isinstance(k.value, ast.Name) and k.value.id == kw:
+                    spreads.add(id(k.value))
+    for n in ast.walk(fn):
+        if isinstance(n, ast.Name) and n.id == kw and id(n) not in spreads:
+            return False
+    return True
+
+
+class _SpreadReplacer(ast.NodeTransformer):
+    def __init__(self, kwname, keywords):
+        self.kwname = kwname
+        self.keywords = keywords
+
+    def visit_Call(self, node):
+        self.generic_visit(node)
+        new = []
+        for k in node.keywords:
+            if k.arg is None and isinstance(k.value, ast.Name) and k.value.id == self.kwname:
+                new.extend(ast.keyword(arg=x.arg, value=clone(x.value)) for x in self.keywords)
+            else:
+                new.append(k)
+        node.keywords = new
+        return node
 
 
 def _names_stored(stmts):
@@ -246,19 +280,30 @@ class Inliner(object):
         if bound:
             if recv is None:
                 raise NotInlinable('bound call without receiver')
-            if isinstance(recv, ast.Name) and recv.id[:1].isupper():
+            if isinstance(recv, ast.Name) and recv.id[:1].isupper() and not callee.is_classmethod:
                 pass         # Class.method(obj, ...): explicit self
             else:
+                # (a classmethod's `cls` is bound to the receiver, instance or class: attribute lookups through it read the same
+                # class attributes unless an instance attribute shadows them, which _table_rows excludes)
                 mapping[pos[0]] = recv
                 pos = pos[1:]
         if len(args) > len(pos):
             raise NotInlinable('too many arguments')
         for p, a in zip(pos, args):
             mapping[p] = a
+        self.spread = None
+        extra = []
         for kw in call.keywords:
             if kw.arg not in params:
-                raise NotInlinable('unknown keyword')
+                if fn.args.kwarg is None:
+                    raise NotInlinable('unknown keyword')
+                if not (isinstance(kw.value, (ast.Name, ast.Constant)) or _is_literal(kw.value)):
+                    raise NotInlinable('extra keyword with a computed value')
+                extra.append(kw)
+                continue
             mapping[kw.arg] = kw.value
+        if fn.args.kwarg is not None:
+            self.spread = (fn.args.kwarg.arg, extra)
         for p in params:
             if p not in mapping:
                 if p in default_map:
@@ -290,12 +335,17 @@ class Inliner(object):
     def expansion(self, callee, call, caller_locals, k):
         prelude, rename = self.bind(callee, call, caller_locals)
         body = [clone(s) for s in _body_without_docstring(callee.node)]
+        if self.spread is not None:
+            body = [_SpreadReplacer(*self.spread).visit(s) for s in body]
         body = [_Renamer(rename).visit(s) for s in body]
         stmts, _ = _tail(body, k)
         out = prelude + stmts
         for s in out:
             ast.copy_location(s, call)
             ast.fix_missing_locations(s)
+            for n in ast.walk(s):
+                if isinstance(n, ast.For):
+                    n._sa_inlined = True        # a loop that came out of an inlined helper (see unroll_table_loops)
         return out
 
     def single_expr(self, callee):
@@ -348,7 +398,7 @@ def _atom(e):
     return False
 
 
-def _table_rows(index, fi, it):
+def _table_rows(index, fi, it, allow_lambda=False):
     """Rows of the literal tuple/list a loop iterates over: written in place, or bound exactly once to a local name, a
     module-level name or a class attribute (`Cls.T`, `self.T`, `cls.T`).  None when not such a table."""
     val = None
@@ -389,8 +439,102 @@ def _table_rows(index, fi, it):
     return list(val.elts)
 
 
-def unroll_table_loops(index, fi):
-    """In the (unreviewed) function fi, replace `for a, b in TABLE: body` over a literal table by one copy of the body per row
+def _pure(e):
+    """Call-free expressions over names, constants, attributes, subscripts and operators: evaluating them later (once)
+    instead of when the table is built differs only in when a failing subscript / comparison would raise."""
+    for n in ast.walk(e):
+        if not isinstance(n, (ast.Name, ast.Constant, ast.Attribute, ast.Subscript, ast.Compare, ast.BoolOp, ast.UnaryOp, ast.BinOp,
+                              ast.IfExp, ast.Tuple, ast.List, ast.JoinedStr, ast.FormattedValue,
+                              ast.expr_context, ast.boolop, ast.unaryop, ast.operator, ast.cmpop)):
+            return False
+    return True
+
+
+def _has_own_jump(stmts):
+    for n in stmts:
+        if isinstance(n, (ast.Break, ast.Continue)):
+            return True
+        if isinstance(n, ast.If) and (_has_own_jump(n.body) or _has_own_jump(n.orelse)):
+            return True
+    return False
+
+
+def _seq(body, rest):
+    """Statements equivalent to one unrolled iteration `body` followed by the remaining iterations `rest`, where a
+    `continue` in body goes on with rest and a `break` skips rest (both only in plain if/else nesting)."""
+    out = []
+    for i, s in enumerate(body):
+        if isinstance(s, ast.Continue):
+            return out + [clone(x) for x in rest]
+        if isinstance(s, ast.Break):
+            return out
+        if isinstance(s, (ast.Return, ast.Raise)):
+            out.append(s)
+            return out
+        if isinstance(s, ast.If) and _has_own_jump([s]):
+            after = list(body[i + 1:])
+            new = ast.If(test=s.test, body=_seq(list(s.body) + [clone(x) for x in after], rest) or [ast.Pass()],
+                         orelse=_seq(list(s.orelse) + [clone(x) for x in after], rest))
+            ast.copy_location(new, s)
+            out.append(new)
+            return out
+        out.append(s)
+    return out + [clone(x) for x in rest]
+
+
+def _const_test(test, index, fi):
+    """Truth value of a test that is decided by what the names ARE (None literal, a class, a function), else None."""
+    if isinstance(test, ast.Constant):
+        return bool(test.value)
+    if isinstance(test, ast.UnaryOp) and isinstance(test.op, ast.Not):
+        v = _const_test(test.operand, index, fi)
+        return None if v is None else (not v)
+    if isinstance(test, ast.Compare) and len(test.ops) == 1 and isinstance(test.ops[0], (ast.Is, ast.IsNot)) \
+            and isinstance(test.comparators[0], ast.Constant) and test.comparators[0].value is None:
+        left = test.left
+        is_none = None
+        if isinstance(left, ast.Constant):
+            is_none = left.value is None
+        elif isinstance(left, ast.Name):
+            local = any(isinstance(n, (ast.Name, ast.arg)) and getattr(n, 'id', getattr(n, 'arg', None)) == left.id
+                        and (isinstance(n, ast.arg) or isinstance(n.ctx, ast.Store)) for n in ast.walk(fi.node))
+            if not local:
+                try:
+                    q = index.resolve_name(fi.module, left.id)
+                except Exception:
+                    q = None
+                if isinstance(q, tuple) and q and q[0] in ('class', 'func', 'function'):
+                    is_none = False
+        if is_none is None:
+            return None
+        return is_none if isinstance(test.ops[0], ast.Is) else (not is_none)
+    return None
+
+
+def _fold(stmts, index, fi):
+    """Drop branches whose test is decided by _const_test and statements after an unconditional exit."""
+    out = []
+    for s in stmts:
+        if isinstance(s, ast.If):
+            v = _const_test(s.test, index, fi)
+            if v is True:
+                out.extend(_fold(s.body, index, fi))
+            elif v is False:
+                out.extend(_fold(s.orelse, index, fi))
+            else:
+                s.body = _fold(s.body, index, fi) or [ast.copy_location(ast.Pass(), s)]
+                s.orelse = _fold(s.orelse, index, fi)
+                out.append(s)
+        else:
+            out.append(s)
+        if out and isinstance(out[-1], (ast.Return, ast.Raise, ast.Break, ast.Continue)):
+            break
+    return out
+
+
+def unroll_table_loops(index, fi, only_temps=False):
+    """(only_temps: only loops over a temporary `_inlN` that holds the literal table an inlined helper returned.)
+    In the (unreviewed) function fi, replace `for a, b in TABLE: body` over a literal table by one copy of the body per row
     with the row's entries substituted for the loop variables.  Faithful when the body neither breaks / continues nor
     stores to the loop variables, the loop has no else, the entries are atoms (names, constants, dotted names), and the
     loop variables are not read after the loop.  Returns the number of loops unrolled."""
@@ -413,31 +557,53 @@ def unroll_table_loops(index, fi):
             tnames = [e.id for e in tgt.elts]
         else:
             return None
+        if only_temps and not ((isinstance(loop.iter, ast.Name) and loop.iter.id.startswith('_inl')) or getattr(loop, '_sa_inlined', False)):
+            return None
         rows = _table_rows(index, fi, loop.iter)
         if rows is None:
             return None
+        loads = {}
+        for s_ in loop.body:
+            for n in ast.walk(s_):
+                if isinstance(n, ast.Name) and n.id in tnames and isinstance(n.ctx, ast.Load):
+                    loads[n.id] = loads.get(n.id, 0) + 1
+
+        def substitutable(e, var):
+            return _atom(e) or (_pure(e) and loads.get(var, 0) <= 1)
         # body restrictions
+        # break / continue of THIS loop are handled when they sit in plain if/else nesting (see _seq); anywhere else
+        # (inside try / with / a nested loop's else ...) the loop is left alone
+        def own_jumps_ok(stmts, plain):
+            for n in stmts:
+                if isinstance(n, (ast.Break, ast.Continue)):
+                    if not plain:
+                        return False
+                elif isinstance(n, ast.If):
+                    if not own_jumps_ok(n.body, plain) or not own_jumps_ok(n.orelse, plain):
+                        return False
+                elif isinstance(n, (ast.For, ast.While, ast.AsyncFor)):
+                    if not own_jumps_ok(n.orelse, False):
+                        return False
+                elif isinstance(n, (ast.Try, ast.With, ast.AsyncWith)):
+                    subs = list(n.body) + list(getattr(n, 'orelse', [])) + list(getattr(n, 'finalbody', []))
+                    for h in getattr(n, 'handlers', []):
+                        subs += list(h.body)
+                    if not own_jumps_ok(subs, False):
+                        return False
+            return True
+        if not own_jumps_ok(loop.body, True):
+            return None
         stack = list(loop.body)
         while stack:
             n = stack.pop()
-            if isinstance(n, (ast.Break, ast.Continue)):
-                return None
-            if isinstance(n, (ast.For, ast.While, ast.AsyncFor)):
-                # break/continue inside a nested loop belong to it; stores are still checked below
-                pass
             if isinstance(n, (ast.FunctionDef, ast.AsyncFunctionDef, ast.Lambda, ast.ClassDef)):
                 return None
             if isinstance(n, ast.Name) and n.id in tnames and isinstance(n.ctx, (ast.Store, ast.Del)):
                 return None
-            if isinstance(n, (ast.For, ast.While)):
-                for x in ast.walk(n):
-                    if isinstance(x, (ast.Break, ast.Continue)):
-                        pass
-                stack.extend(c for c in ast.iter_child_nodes(n) if not isinstance(c, (ast.Break, ast.Continue)))
-                continue
             stack.extend(ast.iter_child_nodes(n))
         if names_loaded_after(after, set(tnames)):
             return None
+        bodies = []
         out = []
         for row in rows:
             if isinstance(tgt, ast.Name):
@@ -445,16 +611,20 @@ def unroll_table_loops(index, fi):
                     return None
                 mapping = {tgt.id: row}
             else:
-                if not isinstance(row, (ast.Tuple, ast.List)) or len(row.elts) != len(tnames) or not all(_atom(e) for e in row.elts):
+                if not isinstance(row, (ast.Tuple, ast.List)) or len(row.elts) != len(tnames) or \
+                        not all(substitutable(e, v) for e, v in zip(row.elts, tnames)):
                     return None
                 mapping = dict(zip(tnames, row.elts))
-            for s in loop.body:
-                c = _Renamer(mapping).visit(clone(s))
-                out.append(c)
+            bodies.append([_Renamer(mapping).visit(clone(s)) for s in loop.body])
+        # chain the copies: `continue` goes on with the next copy, `break` leaves them all
+        rest = []
+        for body in reversed(bodies):
+            rest = _seq(body, rest)
+        out = _fold(rest, index, fi)
         for s in out:
             ast.copy_location(s, loop)
             ast.fix_missing_locations(s)
-        return out
+        return out or [ast.copy_location(ast.Pass(), loop)]
 
     def block(stmts):
         res = []
@@ -475,6 +645,114 @@ def unroll_table_loops(index, fi):
         return res
 
     fi.node.body = block(fi.node.body)
+    return count[0]
+
+
+# ----------------------------------------------------------------------------- lambdas in data
+class _BetaReduce(ast.NodeTransformer):
+    """`(lambda a, b: body)(x, y)` -> body[a:=x, b:=y] when the arguments are atoms (or the parameter is used at most once)."""
+    def visit_Call(self, node):
+        self.generic_visit(node)
+        f = node.func
+        if isinstance(f, ast.Lambda) and not node.keywords and not any(isinstance(a, ast.Starred) for a in node.args):
+            a = f.args
+            if a.vararg or a.kwarg or a.kwonlyargs or a.posonlyargs or a.defaults or len(a.args) != len(node.args):
+                return node
+            names = [x.arg for x in a.args]
+            uses = {}
+            for n in ast.walk(f.body):
+                if isinstance(n, ast.Name) and n.id in names:
+                    uses[n.id] = uses.get(n.id, 0) + 1
+                if isinstance(n, ast.Lambda):
+                    return node          # nested lambdas may shadow: left alone
+            for nm, arg in zip(names, node.args):
+                if not (_atom(arg) or (_pure(arg) and uses.get(nm, 0) <= 1)):
+                    return node
+            return _Renamer(dict(zip(names, node.args))).visit(clone(f.body))
+        return node
+
+
+def _fold_expr(e, index, fi):
+    """Conditional expressions whose test is decided by _const_test."""
+    class F(ast.NodeTransformer):
+        def visit_IfExp(self, node):
+            self.generic_visit(node)
+            v = _const_test(node.test, index, fi)
+            if v is True:
+                return node.body
+            if v is False:
+                return node.orelse
+            return node
+    return F().visit(e)
+
+
+def reduce_table_next(index, fi):
+    """`next(E for a, b in TABLE if C)` over a literal table (rows of atoms or lambdas) -> the first-match conditional
+    expression `E1 if C1 else (E2 if C2 else ...)`; only when the last row's condition is decided true (or a default is
+    given), so that the exhausted-generator case does not arise.  Returns the number of rewrites."""
+    count = [0]
+
+    class T(ast.NodeTransformer):
+        def visit_Call(self, node):
+            self.generic_visit(node)
+            if not (isinstance(node.func, ast.Name) and node.func.id == 'next' and not node.keywords and len(node.args) in (1, 2)
+                    and isinstance(node.args[0], ast.GeneratorExp) and len(node.args[0].generators) == 1):
+                return node
+            ge = node.args[0]
+            gen = ge.generators[0]
+            if gen.is_async:
+                return node
+            tgt = gen.target
+            if isinstance(tgt, ast.Name):
+                tnames = [tgt.id]
+            elif isinstance(tgt, (ast.Tuple, ast.List)) and all(isinstance(x, ast.Name) for x in tgt.elts):
+                tnames = [x.id for x in tgt.elts]
+            else:
+                return node
+            rows = _table_rows(index, fi, gen.iter, allow_lambda=True)
+            if rows is None:
+                return node
+            cases = []
+            for row in rows:
+                if isinstance(tgt, ast.Name):
+                    mapping = {tgt.id: row}
+                else:
+                    if not isinstance(row, (ast.Tuple, ast.List)) or len(row.elts) != len(tnames):
+                        return node
+                    mapping = dict(zip(tnames, row.elts))
+                for v in mapping.values():
+                    if not (_atom(v) or isinstance(v, ast.Lambda)):
+                        return node
+                conds = [_fold_expr(_BetaReduce().visit(_Renamer(mapping).visit(clone(c))), index, fi) for c in gen.ifs]
+                elt = _fold_expr(_BetaReduce().visit(_Renamer(mapping).visit(clone(ge.elt))), index, fi)
+                for x in conds + [elt]:
+                    if any(isinstance(n, ast.Lambda) for n in ast.walk(x)):
+                        return node        # a lambda that was not applied on the spot: not reduced
+                cond = ast.Constant(value=True) if not conds else (conds[0] if len(conds) == 1 else ast.BoolOp(op=ast.And(), values=conds))
+                cases.append((cond, elt))
+            tail = node.args[1] if len(node.args) == 2 else None
+            while cases and tail is None:
+                cond, elt = cases[-1]
+                if _const_test(cond, index, fi) is True:
+                    tail = elt
+                    cases.pop()
+                else:
+                    return node            # an exhausted generator would raise StopIteration: not expressible, left alone
+            out = tail
+            for cond, elt in reversed(cases):
+                v = _const_test(cond, index, fi)
+                if v is True:
+                    out = elt
+                elif v is False:
+                    continue
+                else:
+                    out = ast.IfExp(test=cond, body=elt, orelse=out)
+            count[0] += 1
+            return ast.copy_location(out, node)
+
+    fi.node.body = [T().visit(s_) for s_ in fi.node.body]
+    if count[0]:
+        ast.fix_missing_locations(fi.node)
     return count[0]
 
 
@@ -506,8 +784,15 @@ def split_dispatch_handlers(fn):
 
 
 def _dispatch_rows(h):
-    if h.name is None or not (isinstance(h.type, ast.Name) and h.type.id in ('Exception', 'BaseException')):
+    """Rows [(class expression or None for the default, body)] of a handler whose body is a first-match chain of
+    `isinstance(e, C)` tests on the caught exception; None when it is not such a chain."""
+    if h.name is None or h.type is None:
         return None
+    hparts = h.type.elts if isinstance(h.type, ast.Tuple) else [h.type]
+    if not all(isinstance(x, ast.Name) or (isinstance(x, ast.Attribute) and _atom(x)) for x in hparts):
+        return None
+    hnames = [unparse(x) for x in hparts]
+    catch_all = hnames in (['Exception'], ['BaseException'])
     e = h.name
     for n in ast.walk(h):
         if isinstance(n, ast.Name) and n.id == e and isinstance(n.ctx, (ast.Store, ast.Del)):
@@ -521,14 +806,37 @@ def _dispatch_rows(h):
             for x in parts:
                 if not (isinstance(x, ast.Name) or (isinstance(x, ast.Attribute) and _atom(x))):
                     return None
-                if isinstance(x, ast.Name) and x.id in _BUILTIN_NON_EXCEPTION and x.id != h.type.id:
-                    return None
+                if catch_all:
+                    if isinstance(x, ast.Name) and x.id in _BUILTIN_NON_EXCEPTION and x.id != hnames[0]:
+                        return None
+                elif unparse(x) not in hnames:
+                    return None       # `except (A, B) as e`: only tests for A or B themselves are split off
             return c
         return None
 
+    def distribute(stmts):
+        """Statements after an if/else are copied into the branches that do not exit, so that the chain can be read."""
+        out = []
+        for i, s_ in enumerate(stmts):
+            if isinstance(s_, ast.If) and isinst(s_.test) is not None and stmts[i + 1:]:
+                rest = stmts[i + 1:]
+                body = list(s_.body) + ([] if _always_exits(s_.body) else [clone(x) for x in rest])
+                orelse = list(s_.orelse) + ([] if (s_.orelse and _always_exits(s_.orelse)) else [clone(x) for x in rest])
+                new = ast.If(test=s_.test, body=distribute(body), orelse=distribute(orelse))
+                ast.copy_location(new, s_)
+                out.append(new)
+                return out
+            if isinstance(s_, ast.If) and isinst(s_.test) is not None:
+                new = ast.If(test=s_.test, body=list(s_.body), orelse=distribute(list(s_.orelse)))
+                ast.copy_location(new, s_)
+                out.append(new)
+                return out
+            out.append(s_)
+        return out
+
     rows = []
     prelude = []
-    stmts = list(h.body)
+    stmts = distribute([x for x in h.body if not isinstance(x, ast.Pass)] or list(h.body))
     while True:
         while stmts and isinstance(stmts[0], ast.Assign) and len(stmts[0].targets) == 1 and isinstance(stmts[0].targets[0], ast.Name) \
                 and e not in _names_used(stmts[0].value) and not any(isinstance(n, ast.Call) for n in ast.walk(stmts[0].value)
@@ -542,21 +850,23 @@ def _dispatch_rows(h):
         if c is None:
             rows.append((None, [clone(x) for x in prelude] + stmts))
             break
-        if isinstance(c, ast.Name) and c.id == h.type.id:
+        if isinstance(c, ast.Name) and catch_all and c.id == hnames[0]:
             rows.append((None, [clone(x) for x in prelude] + list(s0.body)))      # always true here: the default
             break
-        if s0.orelse:
-            if len(stmts) > 1 and not (_always_exits(s0.body) and _always_exits(s0.orelse)):
-                return None
-            rows.append((c, [clone(x) for x in prelude] + list(s0.body)))
-            stmts = list(s0.orelse)
-        else:
-            if not _always_exits(s0.body):
-                return None
-            rows.append((c, [clone(x) for x in prelude] + list(s0.body)))
-            stmts = stmts[1:]
+        if len(stmts) > 1:
+            return None        # (distribute left nothing behind an isinstance test; anything else is not a chain)
+        body = [x for x in s0.body if not isinstance(x, ast.Pass)]
+        rows.append((c, [clone(x) for x in prelude] + body))
+        stmts = [x for x in s0.orelse if not isinstance(x, ast.Pass)]
     if len(rows) < 2:
         return None
+    if not catch_all:
+        covered = set()
+        for c, _ in rows:
+            if c is not None:
+                covered.update(unparse(x) for x in (c.elts if isinstance(c, ast.Tuple) else [c]))
+        if covered >= set(hnames):
+            rows = [r_ for r_ in rows if r_[0] is not None]      # the default can no longer be reached
     return rows
 
 
@@ -629,10 +939,16 @@ def normalize(index, known=None, rounds=3):
             n_un = unroll_table_loops(index, cands[q])
             if n_un:
                 report.setdefault('unrolled', {})[q] = report.get('unrolled', {}).get(q, 0) + n_un
+            n_nx = reduce_table_next(index, cands[q])
+            if n_nx:
+                report.setdefault('table_next', {})[q] = n_nx
         for m in index.package_modules():
             for fi in list(m.all_funcs):
                 if _inline_in_function(index, inl, fi, cq, remaining_calls, report):
                     changed = True
+                    n_un = unroll_table_loops(index, fi, only_temps=True)
+                    if n_un:
+                        report.setdefault('unrolled', {})[fi.qualname] = report.get('unrolled', {}).get(fi.qualname, 0) + n_un
                     n_sp = split_dispatch_handlers(fi.node)
                     if n_sp:
                         report.setdefault('split_handlers', {})[fi.qualname] = n_sp
@@ -726,7 +1042,8 @@ def _inline_in_function(index, inl, fi, cq, remaining_calls, report):
                         return expand_stmt(s)
                     if n is head and isinstance(s, (ast.Return, ast.Raise, ast.Expr, ast.Assign, ast.AugAssign)):
                         continue        # handled above (failed there)
-                    if isinstance(s, (ast.For, ast.While, ast.With, ast.Try)) or _under_shortcircuit(s, n):
+                    if isinstance(s, (ast.While, ast.With, ast.Try, ast.AsyncFor)) or _under_shortcircuit(s, n):
+                        # (the iterable of a `for` is evaluated once, before the loop: hoisting it is faithful)
                         raise NotInlinable('call under a short-circuit / loop head')
                     inl.counter += 1
                     tmp = '_inl%d' % inl.counter
